@@ -81,8 +81,10 @@ def execute(pid: str, case: dict, cell: dict) -> dict:
     mod = prop_module(pid)
     ctx = Ctx(pid, cell)
     sched.set_current(None)
+    picks0 = sched.total_picks
     try:
         mod.run_case(case, ctx)
+        ctx.steps += sched.total_picks - picks0
     finally:
         sched.set_current(None)
         del sched.draw_observers[:]
